@@ -131,7 +131,7 @@ def _same_py_expr(ctx, st, a, b):
     return isinstance(a, str) and isinstance(b, str) and py_tree(a) == py_tree(b) and not py_tree(a).startswith("SyntaxError")
 
 
-ARRAY_FUNCS = {"numpy.where", "numpy.logical_and", "numpy.logical_or", "numpy.logical_not", "numpy.sign"}
+ARRAY_FUNCS = {"numpy.where", "numpy.logical_and", "numpy.logical_or", "numpy.logical_not", "numpy.sign", "numpy.mod"}
 
 
 @registry.spec("array_safe")
@@ -202,6 +202,10 @@ contract(PP + "_print_Piecewise", params={"self": "any", "expr": "any"}, ret="Py
          raises={"ValueError": "expr.args[-1].cond.text != 'True'"},
          ensures={"first_true_branch_as_nested_where": "same_py_expr(result, where_chain(expr))", "array_safe": "array_safe(result)"},
          properties=("C01", "C14"), note="BOUNDED: 2..4 branches (sympy evaluates a one-branch Piecewise away: assumed); expression form (the Assignment form is not used by gotranx's own callers)")
+contract(PP + "_print_Mod", params={"self": "any", "expr": "any"}, ret="PyStr",
+         enum_params={"self": [printer_self()], "expr": [hole("Op", "Mod", [hole("A0"), hole("A1")])]},
+         ensures={"python_modulo_as_a_call": "same_py_expr(result, 'numpy.mod(A0, A1)')", "array_safe": "array_safe(result)"},
+         properties=("C01", "C14"), note="numpy.mod has the sign of the divisor like the language's Mod (numpy.fmod / C fmod do not)")
 contract(PP + "_print_Float", params={"self": "any", "flt": "any"}, ret="PyStr",
          enum_params={"self": [printer_self()], "flt": [hole("F", "Float", value=v) for v in (0.1, 1e-8, 1e300, -2.5, 3.0)]},
          ensures={"round_trips": "float(result) == flt.value"},
@@ -337,7 +341,8 @@ for which in ("state", "parameter"):
              note="BOUNDED: 0, 1 and 3 entries; the emitted text is executed with and without keyword overrides")
 
 _METHOD_ARGS = dict(name="FNAME", args="A1, A2", states="S0 = states[0]\nS1 = states[1]", parameters="P0 = parameters[0]",
-                    values="V0 = S0 + P0\nvalues[0] = V0", return_name="values", num_return_values=1,
+                    # slots assigned in an order different from their index (as missing_values does)
+                    values="V0 = S0 + P0\n_values_2 = V0\nW = V0 * 2\n_values_0 = W\nvalues[0] = V0\n_values_1 = S1", return_name="values", num_return_values=1,
                     values_type="numpy.zeros_like(states)", shape_info="shape = 3", missing_variables="M0 = missing_variables[0]")
 
 
